@@ -1015,7 +1015,7 @@ def _describe(case):
                "oracle = rewritten module compiles and re-runs green with snapshot := identity")
 def run(tier, seed, pid=None):
     t0 = time.time()
-    budget = 33.0 if tier == "quick" else 800.0
+    budget = 240.0 if tier == "quick" else 1200.0  # sized for ~30 s idle; generous so that load does not shrink the coverage
     deadline = t0 + budget
     res = dict(evaluated=0, distinct=0, failures=[], samples=[], cross_checks=[], skipped=0, notes=[])
     try:
